@@ -37,9 +37,10 @@ def check(ctx, prog, stats):
         stats["chain_lengths"][len(entered)] += 1
         case = {"spec": prog["spec"], "defs": defs, "calls": [call]}
         mo = model_chain(w, mms, defs, call)
-        if (mo[0], mo[1]) != (out, entered) and not (mo[0][0] == "run" and out[0] == "run" and mo[1] == entered):
+        broken = (mo[0], mo[1]) != (out, entered) and not (mo[0][0] == "run" and out[0] == "run" and mo[1] == entered)
+        if broken:
             ctx.violation(f"visit order / outcome: implementation {(out, entered)} != model {mo}", case, kind="correspondence")
-            return
+            # the tie is broken for this call: the property oracle below is still asked (it does not use the model)
         if len(set(entered)) != len(entered):
             ctx.violation(f"a method was visited twice in one call_next walk: {entered}", case)
         if len(entered) >= 1:
@@ -64,6 +65,11 @@ def check(ctx, prog, stats):
             got = ["run", exp_next] if exp_next is not None else out
             stats["oracle_steps"] += 1
             if fo != got:
+                model_next = (["run", mo[1][i + 1]] if i + 1 < len(mo[1]) else mo[0]) if mo[1][: i + 1] == entered[: i + 1] else None
+                if broken and model_next == fo:
+                    # the model of the unchanged code takes the step the reduced function takes: not KF-01's doing
+                    ctx.violation(f"call_next from method {entered[i]} reached {got}, but a function without {sorted(removed)} chooses {fo} (as the unchanged code's model does)", case)
+                    return
                 if not chain:
                     ctx.known_hit("KF-01", case)
                     stats["kf01"] += 1
